@@ -19,8 +19,26 @@ for x in %(items)r:
 W_PRODUCE_THEN_RAISE = """
 for x in %(items)r:
     channel.send(x)
-raise ValueError('boom-%(tag)s')
+%(raise_)s
 """
+# what the failing body / callback raises: an ordinary exception, one whose text cannot be encoded as UTF-8 (a lone surrogate, as
+# in surrogate-escaped file names), one whose repr() or str() raises, and EOFError
+RAISES = {
+    "plain": "raise ValueError('boom-%(tag)s')",
+    "surrogate": "raise ValueError('boom-%(tag)s-\\udc80')",
+    "badrepr": "class ValueErrorR(ValueError):\n    def __repr__(self): raise RuntimeError('no repr')\nraise ValueErrorR('boom-%(tag)s')",
+    "badstr": "class ValueErrorS(ValueError):\n    def __str__(self): raise RuntimeError('no str')\nraise ValueErrorS('boom-%(tag)s')",
+    "eof": "raise EOFError('boom-%(tag)s')",
+}
+CB_RAISES = {
+    "plain": "raise KeyError('cb-boom')",
+    "badstr": "raise KeyErrorS('cb-boom')",
+}
+
+
+def raise_stmt(c):
+    return RAISES[c.get("exc", "plain")] % {"tag": c["tag"]}
+
 W_PRODUCE_MID = """
 for x in %(first)r:
     channel.send(x)
@@ -86,7 +104,9 @@ sub = channel.gateway.newchannel()
 def cb(x):
     _p.CURRENT.worker_notes.append((%(tag)r, 'cb', x))
     if x == %(bad)r:
-        raise KeyError('cb-boom')
+        %(raise_)s
+class KeyErrorS(KeyError):
+    def __str__(self): raise RuntimeError('no str')
 sub.setcallback(cb)
 channel.send(sub)
 keep = %(keep)d
@@ -147,6 +167,8 @@ def expand_all(items):
 def gen_conversation(rng, kinds, tag):
     kind = rng.choice(kinds)
     c = {"kind": kind, "tag": tag}
+    if kind == "produce_raise" and rng.random() < 0.4:
+        c["exc"] = rng.choice(["surrogate", "badrepr", "badstr", "eof"])
     if kind in ("produce", "produce_raise"):
         c["items"] = gen_items(rng)
         c["consume"] = rng.choice(["receive", "iter", "iter_and_receiver", "callback", "callback_late", "callback_mid", "callback_end_raises", "two_receivers", "waitclose_then_receive"] + (["callback_dropped"] if kind == "produce" else []))
@@ -159,6 +181,8 @@ def gen_conversation(rng, kinds, tag):
         c["items"] = list(range(rng.randint(1, 4)))
         c["bad"] = rng.choice(c["items"])
         c["keep"] = rng.choice([0, 1])
+        if rng.random() < 0.3:
+            c["exc"] = "badstr"
     elif kind == "subchannel_dropped":
         c["items"] = gen_items(rng, rng.randint(0, 3), big=False)
     elif kind == "halfclose":
@@ -177,19 +201,19 @@ def worker_source(c):
     k = c["kind"]
     if k in ("produce", "produce_raise") and c.get("consume") == "callback_mid":
         h = len(c["items"]) // 2
-        return W_PRODUCE_MID % {"first": c["items"][:h], "rest": c["items"][h:], "tail": ("raise ValueError('boom-%s')" % c["tag"]) if k == "produce_raise" else "pass"}
+        return W_PRODUCE_MID % {"first": c["items"][:h], "rest": c["items"][h:], "tail": raise_stmt(c) if k == "produce_raise" else "pass"}
     if k == "produce" and c.get("consume") == "callback_dropped":
         return W_PRODUCE_SLOW_END % {"items": c["items"]}
     if k == "produce":
         return W_PRODUCE % {"items": c["items"]}
     if k == "produce_raise":
-        return W_PRODUCE_THEN_RAISE % {"items": c["items"], "tag": c["tag"]}
+        return W_PRODUCE_THEN_RAISE % {"items": c["items"], "raise_": raise_stmt(c)}
     if k == "consume":
         return W_CONSUME % {"n": len(c["items"])}
     if k == "consume_eof":
         return W_CONSUME_UNTIL_EOF % {"tag": c["tag"]}
     if k == "callback_raises":
-        return W_CALLBACK_RAISES % {"tag": c["tag"], "bad": c["bad"], "keep": c["keep"]}
+        return W_CALLBACK_RAISES % {"tag": c["tag"], "bad": c["bad"], "keep": c["keep"], "raise_": CB_RAISES[c.get("exc", "plain")]}
     if k == "subchannel_dropped":
         return W_SUBCHANNEL_DROPPED % {"items": c["items"]}
     if k == "halfclose":
@@ -583,7 +607,7 @@ def check_conversation(ck, prefix, c, o, out, ex, lossy=False):
             if k == "produce" and ends != ("EOFError", "EOFError"):
                 ck.fail(prefix + "concurrent-receivers-do-not-all-see-EOF:" + str(ends), ex)
             if k == "produce_raise" and sorted(map(str, ends)) != ["EOFError", "RemoteError"]:
-                ck.fail(prefix + "remote-error-not-delivered-exactly-once:" + str(ends), ex)
+                ck.fail(prefix + "remote-error-not-delivered-exactly-once:" + str(ends) + (":body-raised-EOFError" if c.get("exc") == "eof" else ""), ex)
             return
         mode = c["consume"]
         if mode == "callback_end_raises":
@@ -611,7 +635,7 @@ def check_conversation(ck, prefix, c, o, out, ex, lossy=False):
             if o.get("receive_after_setcallback") != "OSError":
                 ck.fail(prefix + "receive-after-setcallback-not-refused", ex)
             if k == "produce_raise" and o.get("end") != "RemoteError":
-                ck.fail(prefix + "remote-error-not-raised-by-waitclose", ex)
+                ck.fail(prefix + "remote-error-not-raised-by-waitclose" + (":body-raised-EOFError" if c.get("exc") == "eof" else ""), ex)
             return
         if list(map(canon_item, got)) != list(map(canon_item, want)):
             ck.fail(prefix + f"items-differ:{mode}", ex)
@@ -627,8 +651,9 @@ def check_conversation(ck, prefix, c, o, out, ex, lossy=False):
             # the error exactly once (receive or the earlier waitclose), after all items, then EOFError
             nerr = int(o.get("end") == "RemoteError") + int(o.get("waitclose") == "RemoteError")
             if nerr != 1:
-                ck.fail(prefix + f"remote-error-not-exactly-once:{mode}:{o.get('end')}:{o.get('waitclose')}", ex)
-            elif "ValueError" not in o.get("errtext", "") or ("boom-%s" % c["tag"]) not in o.get("errtext", ""):
+                ck.fail(prefix + f"remote-error-not-exactly-once:{mode}:{o.get('end')}:{o.get('waitclose')}" + (":body-raised-EOFError" if c.get("exc") == "eof" else ""), ex)
+            elif (("EOFError" if c.get("exc") == "eof" else "ValueError") not in o.get("errtext", "")
+                  or (c.get("exc") != "badstr" and ("boom-%s" % c["tag"]) not in o.get("errtext", ""))):
                 ck.fail(prefix + "remote-error-text-lacks-type-or-message", ex)
             if mode != "iter" and o.get("after") != "EOFError":
                 ck.fail(prefix + "after-remote-error-not-EOFError:" + str(o.get("after")), ex)
@@ -657,7 +682,7 @@ def check_conversation(ck, prefix, c, o, out, ex, lossy=False):
         if not c["keep"] and o.get("end") != "RemoteError":
             ck.fail(prefix + "callback-error-not-reported-to-peer-in-send-only-state:" + str(o.get("end")), ex)
         if c["keep"]:
-            if o.get("end") != "RemoteError" or "KeyError" not in o.get("errtext", "") or "cb-boom" not in o.get("errtext", ""):
+            if o.get("end") != "RemoteError" or "KeyError" not in o.get("errtext", "") or (c.get("exc") != "badstr" and "cb-boom" not in o.get("errtext", "")):
                 ck.fail(prefix + f"callback-error-not-reported-to-peer:{o.get('end')}", ex)
             if o.get("after") != "EOFError":
                 ck.fail(prefix + "callback-error-more-than-once:" + str(o.get("after")), ex)
